@@ -220,6 +220,20 @@ func c12(ctx *Ctx) (*Outcome, error) {
 		// relative arguments are the same
 		deep := filepath.Join(ctx.Env.St.TempDir("reloc"), "moved", "elsewhere", fmt.Sprintf("x%d", i))
 		record("relocated", cli.RunIn(ctx.Env, deep, &cli.Inv{Files: c.files(nil), Args: c.args()}))
+		// relocation seen by the tool: the schema directory moved below a directory whose name a URL or flag parser
+		// could trip over; the inputs are named through it, the outputs stay where they were
+		{
+			prefix := []string{"batch#7", "q?x=1", "sp ace", "日本", "a=b", "pct%41", "co,mma", "at@sign", "semi;colon", "amp&er"}[i%10]
+			var files []batch.File
+			for _, f := range c.files(nil) {
+				files = append(files, batch.File{Path: filepath.Join(prefix, f.Path), Data: f.Data})
+			}
+			a := append([]string{"-p", "detpkg"}, c.opts...)
+			for _, f := range c.fs.Files {
+				a = append(a, filepath.Join(prefix, f.Path))
+			}
+			record("moved-below-"+prefix, cli.Run(ctx.Env, &cli.Inv{Files: files, Args: a}))
+		}
 		results[i] = o
 	})
 	var viols []Viol
